@@ -47,7 +47,8 @@ fn main() {
         .ok()
         .and_then(|s| s.parse().ok())
         .unwrap_or(1.0)
-        * props::mult(&id);
+        * props::mult(&id)
+        * if args.get(1).map(|s| s.as_str()) == Some("thorough") { 0.3 } else { 1.0 };
     let threads: usize = std::env::var("VERIF_JOBS")
         .ok()
         .and_then(|s| s.parse().ok())
